@@ -87,7 +87,7 @@ End Inst.
         (both invoked before either responds); the loser is told "locked"; then the winner edits and a
         reader runs concurrently with the commit ---- *)
 Definition lx_reg : registry :=
-  [ {| h_pat := [PLit 1; PWild; PLit 2]; h_kind := KInt; h_conts := [1; 2]%nat; h_deps := []; h_frr := false |} ]%N.
+  [ {| h_pat := [PLit 1; PWild; PLit 2]; h_kind := KInt; h_conts := [1; 2]%nat; h_deps := []; h_frr := false; h_typed := false |} ]%N.
 Definition lx_p : path := [1; 3; 2]%N.
 Definition lx_progs (t : nat) : list cop :=
   match t with
@@ -98,8 +98,8 @@ Definition lx_progs (t : nat) : list cop :=
 Definition lx_st0 : state := init_state empty_store.
 
 Lemma lx_reach_next {progs c c'} :
-  m_reach FrrDefect lx_reg no_guard lx_st0 progs c -> m_step FrrDefect lx_reg no_guard c c' ->
-  m_reach FrrDefect lx_reg no_guard lx_st0 progs c'.
+  m_reach Repaired lx_reg no_guard lx_st0 progs c -> m_step Repaired lx_reg no_guard c c' ->
+  m_reach Repaired lx_reg no_guard lx_st0 progs c'.
 Proof. intros R S. eapply Relation_Operators.rtn1_trans; eauto. Qed.
 
 Ltac lx_acq := let t' := fresh in let o' := fresh in let Hne := fresh in let Hh := fresh in
@@ -108,7 +108,7 @@ Ltac lx_go R n ctor :=
   eapply lx_reach_next in R;
   [| unfold m_step; eapply ctor with (t := n); [reflexivity | try lx_acq ..]].
 
-Lemma lx_reachable : exists c, m_reach FrrDefect lx_reg no_guard lx_st0 lx_progs c /\ quiescent c /\
+Lemma lx_reachable : exists c, m_reach Repaired lx_reg no_guard lx_st0 lx_progs c /\ quiescent c /\
   exists r0 r2 s1 l,
     c_hist c = [EInv (0, 0)%nat (CMut OCreate); EInv (1, 0)%nat (CMut OCreate);
                 ERes (1, 0)%nat (RMut (RId 1) []); ERes (0, 0)%nat (RMut RLocked []);
@@ -118,7 +118,7 @@ Lemma lx_reachable : exists c, m_reach FrrDefect lx_reg no_guard lx_st0 lx_progs
     r0 = RMut ROk [] /\ r2 = ROk /\ get_leaf s1 lx_p = None /\
     get_leaf (running (c_sh c tt)) lx_p = Some (SInt 1500).
 Proof.
-  assert (R : m_reach FrrDefect lx_reg no_guard lx_st0 lx_progs (init (fun _ => lx_st0) lx_progs)) by constructor.
+  assert (R : m_reach Repaired lx_reg no_guard lx_st0 lx_progs (init (fun _ => lx_st0) lx_progs)) by constructor.
   unfold init in R.
   lx_go R 0%nat s_invoke. lx_go R 1%nat s_invoke.
   lx_go R 1%nat s_acquire. lx_go R 1%nat s_read. lx_go R 1%nat s_finish. lx_go R 1%nat s_unlock. lx_go R 1%nat s_respond.
